@@ -67,23 +67,34 @@ class ExtendedRegionProperties(RegionProperties):
             )
 
             # Calculate the lengths of the principal axes
+            # (for flat or collinear regions a radius is zero; rounding in the eigenvalue
+            # computation can make the argument slightly negative, so clamp it at zero)
             longr = math.sqrt(
-                5.0
-                / 2.0
-                * (eigval[midaxis] + eigval[shortaxis] - eigval[longaxis])
-                / voxel_count
+                max(
+                    0.0,
+                    5.0
+                    / 2.0
+                    * (eigval[midaxis] + eigval[shortaxis] - eigval[longaxis])
+                    / voxel_count,
+                )
             )
             midr = math.sqrt(
-                5.0
-                / 2.0
-                * (eigval[shortaxis] + eigval[longaxis] - eigval[midaxis])
-                / voxel_count
+                max(
+                    0.0,
+                    5.0
+                    / 2.0
+                    * (eigval[shortaxis] + eigval[longaxis] - eigval[midaxis])
+                    / voxel_count,
+                )
             )
             shortr = math.sqrt(
-                5.0
-                / 2.0
-                * (eigval[longaxis] + eigval[midaxis] - eigval[shortaxis])
-                / voxel_count
+                max(
+                    0.0,
+                    5.0
+                    / 2.0
+                    * (eigval[longaxis] + eigval[midaxis] - eigval[shortaxis])
+                    / voxel_count,
+                )
             )
 
             return (longr, midr, shortr)
